@@ -299,6 +299,20 @@ Proof.
 Qed.
 Print Assumptions prune_sound_alive_change.
 
+(* 3. Hard-write (writes hash over every shard of the group): with the read side repaired to look the key up in that same
+      list and then keep the alive shards (target_group_hw, props/C11/fix5.patch), a row whose own shard is alive when the query
+      runs is found - for EVERY alive list at query time: other partitions going offline or coming back cannot hide it. *)
+Theorem hard_write_prune_sound : forall (hash : str -> N) c cond p g s,
+  wf_group c (set_alive g (full_list g)) -> wf_point p ->
+  route_in hash c (set_alive g (full_list g)) p = Some s -> In s (all_alive g) -> eval_cond c cond p = true ->
+  In s (target_group_hw hash repaired c g cond) /\ (forall s', In s' (target_group_hw hash repaired c g cond) -> is_alive_b g s' = true).
+Proof.
+  intros hash c cond p g s Hwf Hwp Hr Hal Hev. split.
+  - exact (hard_write_prune_sound_proof hash repaired c cond p g s eq_refl eq_refl (or_introl eq_refl) Hwf Hwp Hr Hal Hev).
+  - intros s'. apply target_group_hw_alive.
+Qed.
+Print Assumptions hard_write_prune_sound.
+
 (* ------------------------------------------------------------------ non-vacuity: the hypotheses are satisfiable *)
 Definition B (l : list N) : str := l.
 Definition s_host : str := [104; 111; 115; 116]%N.
